@@ -36,6 +36,24 @@ Definition rejuvenate (p q : prog) (amap : chm -> list Q) (k : key) (t : strace)
   do pt <- simulate q sub_key fwd_args;
   rejuvenate_from p q amap pt t.
 
+(* Rejuvenate.edit(key, tr, argdiffs) with NEW arguments (argdiffs carry other primals): the inner Update is applied
+   with the new arguments, so the new trace holds them and every site is re-scored under them; the previous trace's
+   stored scores are the "old" side of the weight.  update_args p t (t_args t) = update p t. *)
+Definition update_args (p : prog) (t : strace) (args : list Q) (c : chm) : res (strace * Q * chm) :=
+  if nodupb (addrs p) then
+    do x <- upd_sites p (t_subs t) c args;
+    let '(subs, w, bwd) := x in
+    Ok ({| t_args := args; t_subs := subs |}, w, bwd)
+  else Err EAddressReuse.
+Definition rejuvenate_args (p q : prog) (amap : chm -> list Q) (k : key) (t : strace) (args : list Q)
+  : res (strace * Q * chm) :=
+  let fwd_args := amap (choices t) in
+  do pt <- simulate q (fold_in k 1) fwd_args;
+  do u <- update_args p t args (choices pt);
+  let '(new_t, w, bwd) := u in
+  do bwd_score <- assess q bwd (amap (choices new_t));
+  Ok (new_t, w + bwd_score - score pt, bwd).
+
 (* the defect repaired by 155c8d3 (finding F07), kept as a definition so that the proofs can
    show the clause "arguments from the new trace" is not vacuous: backward arguments computed
    from the discarded values *)
@@ -60,19 +78,19 @@ Inductive rwant :=
 | ROk (x0 x1 : chm) (w : Q) (bwd : chm)     (* simulated choices, new choices, weight, discard *)
 | RErr (e : err).
 Inductive rcase :=
-| RCase (p q : list psite) (margs : list Q) (am : list pexpr) (k0 k1 : key) (want : rwant).
+| RCase (p q : list psite) (margs nargs : list Q) (am : list pexpr) (k0 k1 : key) (want : rwant).   (* nargs: the arguments of the edit *)
 
-Definition run_rcase (p q : list psite) (margs : list Q) (am : list pexpr) (k0 k1 : key)
+Definition run_rcase (p q : list psite) (margs nargs : list Q) (am : list pexpr) (k0 k1 : key)
   : res (chm * chm * Q * chm) :=
   do t <- simulate (prog_of p) k0 margs;
-  do r <- rejuvenate (prog_of p) (prog_of q) (amap_of p am) k1 t;
+  do r <- rejuvenate_args (prog_of p) (prog_of q) (amap_of p am) k1 t nargs;
   let '(nt, w, bwd) := r in
   Ok (choices t, choices nt, w, bwd).
 
 Definition rcase_ok (c : rcase) : bool :=
   match c with
-  | RCase p q margs am k0 k1 want =>
-      match run_rcase p q margs am k0 k1, want with
+  | RCase p q margs nargs am k0 k1 want =>
+      match run_rcase p q margs nargs am k0 k1, want with
       | Ok (x0, x1, w, bwd), ROk x0' x1' w' bwd' =>
           chm_eqb x0 x0' && chm_eqb x1 x1' && qeqb w w' && chm_eqb bwd bwd'
       | Err e, RErr e' => err_eqb e e'
@@ -82,22 +100,23 @@ Definition rcase_ok (c : rcase) : bool :=
 (* fallback used only when the check above fails: the same comparison with the proposal's draw
    READ from the implementation (the new values at q's addresses) instead of predicted from the
    key; tells a changed key derivation from a changed weight *)
-Definition run_rcase_given (p q : list psite) (margs : list Q) (am : list pexpr) (x0 x1 : chm)
+Definition run_rcase_given (p q : list psite) (margs nargs : list Q) (am : list pexpr) (x0 x1 : chm)
   : res (chm * Q * chm) :=
   if negb (nodupb (addrs (prog_of p))) then Err EAddressReuse else
   let t := trace_at (prog_of p) margs (map snd x0) in
   let vals := map (fun s => match get x1 (ps_addr s) with Some v => v | None => 0 end) q in
   if negb (nodupb (addrs (prog_of q))) then Err EAddressReuse else
   let pt := trace_at (prog_of q) (amap_of p am (choices t)) vals in
-  do r <- rejuvenate_from (prog_of p) (prog_of q) (amap_of p am) pt t;
-  let '(nt, w, bwd) := r in
-  Ok (choices nt, w, bwd).
+  do u <- update_args (prog_of p) t nargs (choices pt);
+  let '(nt, w0, bwd) := u in
+  do bwd_score <- assess (prog_of q) bwd (amap_of p am (choices nt));
+  Ok (choices nt, w0 + bwd_score - score pt, bwd).
 Definition rcase_ok_given (c : rcase) : bool :=
   match c with
-  | RCase p q margs am k0 k1 want =>
+  | RCase p q margs nargs am k0 k1 want =>
       match want with
       | ROk x0 x1 w bwd =>
-          match run_rcase_given p q margs am x0 x1 with
+          match run_rcase_given p q margs nargs am x0 x1 with
           | Ok (x1', w', bwd') => chm_eqb x1' x1 && qeqb w' w && chm_eqb bwd' bwd
           | Err _ => false
           end
